@@ -11,6 +11,8 @@ class AttrDict(dict):
 
 
 def _wrap(v):
+    if isinstance(v, AttrDict):
+        return v
     if isinstance(v, dict):
         return AttrDict(v)
     if isinstance(v, list):
